@@ -295,7 +295,7 @@ fn complete_prefix(case: &ConvCase, rd: &vcore::wire::Rendered, k: usize) -> usi
         let rq = &case.conv.reqs[i];
         // (the body of a request whose Connection header names upgrade is the rest of the connection:
         // never buffered)
-        let upgrades = rq.headers.iter().any(|h| h.name.eq_ignore_ascii_case("connection") && h.value.to_ascii_lowercase().contains("upgrade"));
+        let upgrades = rq.headers.iter().find(|h| h.name.eq_ignore_ascii_case("connection")).map(|h| h.value.to_ascii_lowercase().contains("upgrade")).unwrap_or(false);
         let buffered = matches!(rq.framing, vcore::wire::Framing::Length { n } if n > 0 && n <= 1024) && !rq.expects_continue() && !upgrades;
         let need = if buffered { r.end } else { r.head_end };
         if need <= k {
@@ -441,10 +441,18 @@ pub fn parts<'a>(cli: &'a Cli) -> Option<(Vec<Part<'a>>, &'static str, Vec<&'sta
     match cli.property.as_str() {
         "C02" => {
             parts.push(make_part("mem", "CONV/mem", cli.cases(6_000, 400_000), || gen::c02_strategy(mem()), |_| (), |_, c| {
+                // every third case is preceded, on the same thread, by a connection whose client goes
+                // away in the middle of a head line: nothing of it may show in the next connection
+                let n = render(&c.conv).bytes.len();
+                if n % 3 == 0 && n > 8 {
+                    let mut first = c.clone();
+                    first.script = vec![Step::Send { from: 0, to: n }];
+                    let _ = run_mem(&first, &MemOpts { cut_at: Some((2 + n % 5, if n % 2 == 0 { CutKind::Close } else { CutKind::Reset })), ..Default::default() });
+                }
                 let (exp, obs) = run(c);
                 c02_oracle(c, &exp, &obs, "00000000")
             }));
-            Some((parts, "part mem: the C02 cases over the in-memory connection (remote_addr must be absent)", a))
+            Some((parts, "part mem: the C02 cases over the in-memory connection (remote_addr must be absent); every third case follows, on the same thread, a connection that ended in the middle of its request line", a))
         }
         "C04" => {
             parts.push(make_part("mem-conn", "CONV/mem", cli.cases(10_000, 500_000), || gen::c04_conn_strategy(mem()), |_| (), |_, c| {
